@@ -210,3 +210,140 @@ def hexval(c):
     if c in "ABCDEF":
         return o - 55
     return o - 87
+
+
+# ------------------------------------------------------------------ reference percent-decoding
+def is_hex(c):
+    return c in HEXDIG
+
+
+def escape_at(s, i):
+    """True iff s[i:i+3] is '%' HEX HEX"""
+    if i + 2 >= len(s):
+        return False
+    if s[i] != "%":
+        return False
+    if s[i + 1] not in HEXDIG:
+        return False
+    return s[i + 2] in HEXDIG
+
+
+def byte_at(s, i):
+    return hexval(s[i + 1]) * 16 + hexval(s[i + 2])
+
+
+def pct_tokens(s, delims="", qs=False, escapes=True):
+    """Meaning of component text as a token list: ('b', byte) for data bytes, ('d', char) for a *literal*
+    delimiter of the component.  An escape always yields a data byte (so '%2F' and '/' differ).
+    qs: literal '+' and ' ' both mean a space byte.  escapes=False: the text is already decoded ('%' is data)."""
+    out = []
+    i = 0
+    n = len(s)
+    while i < n:
+        if escapes and escape_at(s, i):
+            out.append(("b", byte_at(s, i)))
+            i += 3
+            continue
+        c = s[i]
+        i += 1
+        if c in delims:
+            out.append(("d", c))
+        elif qs and (c == " " or c == "+"):
+            out.append(("b", 32))
+        else:
+            for b in c.encode("utf-8"):
+                out.append(("b", b))
+    return out
+
+
+def utf8_seq(bs, k):
+    """(code point, length) of the valid UTF-8 sequence starting at bs[k], or None (RFC 3629: no overlongs,
+    no surrogates, <= U+10FFFF)"""
+    b0 = bs[k]
+    n = len(bs)
+    if b0 < 0x80:
+        return b0, 1
+    if b0 < 0xC2:
+        return None
+    if b0 < 0xE0:
+        if k + 1 < n and 0x80 <= bs[k + 1] <= 0xBF:
+            return ((b0 & 0x1F) << 6) | (bs[k + 1] & 0x3F), 2
+        return None
+    if b0 < 0xF0:
+        if k + 2 >= n:
+            return None
+        b1 = bs[k + 1]
+        lo = 0x80
+        hi = 0xBF
+        if b0 == 0xE0:
+            lo = 0xA0
+        if b0 == 0xED:
+            hi = 0x9F
+        if not (lo <= b1 <= hi):
+            return None
+        if not (0x80 <= bs[k + 2] <= 0xBF):
+            return None
+        return ((b0 & 0x0F) << 12) | ((b1 & 0x3F) << 6) | (bs[k + 2] & 0x3F), 3
+    if b0 < 0xF5:
+        if k + 3 >= n:
+            return None
+        b1 = bs[k + 1]
+        lo = 0x80
+        hi = 0xBF
+        if b0 == 0xF0:
+            lo = 0x90
+        if b0 == 0xF4:
+            hi = 0x8F
+        if not (lo <= b1 <= hi):
+            return None
+        if not (0x80 <= bs[k + 2] <= 0xBF):
+            return None
+        if not (0x80 <= bs[k + 3] <= 0xBF):
+            return None
+        return ((b0 & 0x07) << 18) | ((b1 & 0x3F) << 12) | ((bs[k + 2] & 0x3F) << 6) | (bs[k + 3] & 0x3F), 4
+    return None
+
+
+def pct_decode_text(s, qs=False, keep=""):
+    """Reference decoded view: maximal runs of escapes are decoded as UTF-8; a byte that is not part of a complete
+    valid sequence keeps its original three characters; qs: '+' is a space and decoded '+', '=', '&', ';' stay
+    escaped; keep: decoded characters that stay escaped (path_safe keeps '/' and '%')."""
+    out = ""
+    i = 0
+    n = len(s)
+    while i < n:
+        if escape_at(s, i):
+            j = i
+            bs = []
+            while escape_at(s, j):
+                bs.append(byte_at(s, j))
+                j += 3
+            k = 0
+            while k < len(bs):
+                r = utf8_seq(bs, k)
+                if r is None:
+                    out = out + s[i + 3 * k:i + 3 * k + 3]
+                    k += 1
+                    continue
+                ch = chr(r[0])
+                esc = None
+                for d in (("+=&;" if qs else "") + keep):
+                    if ch == d:
+                        esc = "%" + HEXDIG_UPPER[ord(d) >> 4] + HEXDIG_UPPER[ord(d) & 15]
+                        break
+                out = out + (esc if esc is not None else ch)
+                k += r[1]
+            i = j
+            continue
+        c = s[i]
+        i += 1
+        if qs and c == "+":
+            out = out + " "
+        else:
+            out = out + c
+    return out
+
+
+# scalar helpers are merged into one term instead of forking the caller (sx function-level merging)
+for _f in (hexval, escape_at, byte_at, is_hex, is_upper_hex):
+    _f._sx_pure = True
